@@ -92,14 +92,17 @@ def is_valid_rule(rep, prog):
 
 
 def registry_holds(regs, name, key, given):
-    """every entry that can reach the read (non-empty effective properties containing all `given` keys) has `key`."""
+    """every entry that can reach the read (effective properties containing all `given` keys; the pseudo key '' stands for a
+    dominating truth test of the properties, which entries without any property do not pass) has `key`."""
     reg = regs.get(name)
     if reg is None:
         return None, 'registry %s not found' % name
     bad = []
     for e in reg.entries:
         eff = reg.effective(e)
-        if not eff or not all(g in eff for g in given):
+        if '' in given and not eff:
+            continue
+        if not all(g in eff for g in given if g):
             continue
         if key not in eff:
             bad.append(e)
